@@ -20,6 +20,8 @@ type c15Case struct {
 	DstCap  int    `json:"dst_cap"`
 	DstForm string `json:"dst_form"`
 	DstKind string `json:"dst_kind"`
+	SrcMtx  bool   `json:"src_mutex,omitempty"`
+	DstMtx  bool   `json:"dst_mutex,omitempty"`
 }
 
 var c15Forms = []string{"native", "alias", "ptr-alias", "ptr-native", "aliasS", "read-only", "zero", "freed", "nil", "int", "string", "condition", "nil-ptr-alias", "nil-ptr-native", "zero-alias"}
@@ -46,6 +48,12 @@ func c15Run(c *Ctx, cs c15Case, count bool) {
 	dstNative.Push(dstVals...)
 	if dstNative.Len() != cs.DstLen || src.Len() != cs.SrcLen {
 		return // not constructible (capacity smaller than requested length)
+	}
+	if cs.SrcMtx {
+		src.SetMutex()
+	}
+	if cs.DstMtx {
+		dstNative.SetMutex()
 	}
 	var dst any
 	usable := true // destination is a usable Stack
@@ -97,6 +105,15 @@ func c15Run(c *Ctx, cs c15Case, count bool) {
 	if p := noPanic(func() { got = src.Transfer(dst) }); p != "" {
 		c.Violation("panic:"+cs.DstForm, fmt.Sprintf("Transfer panicked for %s: %s", jsonString(cs), p), cs, cs.SrcLen+cs.DstLen)
 		return
+	}
+	for _, st := range []stackage.Stack{src, dstNative} {
+		if m := stackage.VerifDump(st).Mtx; m != 0 {
+			if _, held := heldMutexes.Load(m); held {
+				heldMutexes.Delete(m)
+				c.Violation("lock-leaked:"+cs.DstForm, fmt.Sprintf("a mutex is still held after Transfer returned (the next locking call blocks forever): %s", jsonString(cs)), cs, cs.SrcLen+cs.DstLen)
+				return
+			}
+		}
 	}
 	free := -1
 	if cs.DstCap > 0 {
@@ -164,7 +181,10 @@ func c15Cases(c *Ctx) []c15Case {
 										if form != "native" && (dm != (1<<dl)-1) {
 											continue // nil patterns of the destination only with the native form
 										}
-										out = append(out, c15Case{sl, sm, sf, sc, "LIST", dl, dm, dc, form, "AND"})
+										out = append(out, c15Case{sl, sm, sf, sc, "LIST", dl, dm, dc, form, "AND", false, false})
+										if dm == (1<<dl)-1 && sm == (1<<sl)-1 && (form == "native" || form == "alias" || form == "read-only" || form == "int") {
+											out = append(out, c15Case{sl, sm, sf, sc, "LIST", dl, dm, dc, form, "AND", true, true}, c15Case{sl, sm, sf, sc, "LIST", dl, dm, dc, form, "AND", true, false})
+										}
 									}
 								}
 							}
@@ -179,6 +199,7 @@ func c15Cases(c *Ctx) []c15Case {
 
 func init() {
 	register(&Check{ID: "C15", Engine: "B", Run: func(c *Ctx) {
+		installLockModel()
 		cases := c15Cases(c)
 		c.Rule = "complete product of source (length, nil pattern, LIFO/FIFO, capacity) x destination (length, nil pattern, capacity none..max) x destination form; non-trivial = distinct cases with a usable destination and either a non-empty source that fits or a capacity refusal"
 		parallelFor(len(cases), func(i int) { c15Run(c, cases[i], true) })
